@@ -753,6 +753,7 @@ fn limb_op(op: &str, a: &[&str]) -> Option<String> {
 /// crate-internal `decode_hex_byte([hi, lo]) -> (byte, err)` through `crypto_bigint::verif_hooks`:
 ///   c16.hook.decode_hex_byte a b   prints `<byte> <err>` exactly as returned (hex)
 ///   c16.hook.hex_pair a b          prints `<byte>` when `err == 0`, else `invalid` (what the callers act on)
+#[cfg(crypto_bigint_verif)]
 fn hook_op(op: &str, a: &[&str]) -> Option<String> {
     let [x, y] = a else { return Some(BAD.to_string()) };
     let (x, y) = (arg!(word(x)), arg!(word(y)));
@@ -854,4 +855,12 @@ pub fn dispatch(op: &str, a: &[&str]) -> Option<String> {
         }
         _ => None,
     }
+}
+
+// ---- the same entry points when the crate is built WITHOUT `--cfg crypto_bigint_verif` (fallback build of the runner when the
+// hook forwarders of /repo no longer compile, e.g. after a refactor of an internal signature): hook operations answer
+// `hook-unavailable` and are skipped by the runner; the public operations still run.
+#[cfg(not(crypto_bigint_verif))]
+fn hook_op(_op: &str, _a: &[&str]) -> Option<String> {
+    Some(crate::util::HOOK_UNAVAILABLE.to_string())
 }
